@@ -84,6 +84,11 @@ type Scenario struct {
 	// under test spins without reaching a simulator primitive, which the scenario
 	// treats as a violation (class "no-progress"). The process exits after reporting.
 	WallLimit time.Duration
+	// ResidualNondeterminism, if non-empty, names a source of nondeterminism inside
+	// the code under test that the simulator cannot own (e.g. Go's random choice
+	// among several ready select cases); a run whose immediate re-run differs is then
+	// counted instead of being treated as a harness error.
+	ResidualNondeterminism string
 }
 
 // Result is what one worker process reports.
@@ -414,7 +419,12 @@ func runMode(t *testing.T, property string, scenarios []*Scenario) {
 					res.Samples = append(res.Samples, Sample{Case: c, Steps: oc2.Sim.Step, Forks: oc2.Sim.SchedForks,
 						Faults: oc2.Sim.Faults, TraceHead: head, Hash: fmt.Sprintf("%016x", oc2.Sim.Hash())})
 					if oc2.Sim.Hash() != sim.Hash() {
-						res.Internal = append(res.Internal, fmt.Sprintf("%s: nondeterministic re-run: hash %016x vs %016x seed=%d", sc.Name, sim.Hash(), oc2.Sim.Hash(), c.Seed))
+						if sc.ResidualNondeterminism != "" {
+							// a documented source the simulator does not own (see the scenario); counted
+							res.Probes["nondeterministic-rerun"]++
+						} else {
+							res.Internal = append(res.Internal, fmt.Sprintf("%s: nondeterministic re-run: hash %016x vs %016x seed=%d", sc.Name, sim.Hash(), oc2.Sim.Hash(), c.Seed))
+						}
 					}
 				}
 			}
